@@ -15,27 +15,25 @@ import (
 
 var vErrPlugin = errors.New("injected plugin failure")
 
-type vLedger struct {
-	calls   int
-	faultAt int
-	site    string
-}
-
-func (l *vLedger) fault(site string) bool {
-	l.calls++
-	if l.calls == l.faultAt {
-		l.site = site
-		return true
-	}
-	return false
-}
+// The single fault is "the first call of method M on plugin P" (the manager
+// calls its plugins from one goroutine each, so a positional fault would not
+// replay deterministically).
 
 // vLPlugin: usage(node) is a single number; requests carry {"amount": n}.
 type vLPlugin struct {
 	plugins.Plugin
-	name  string
-	l     *vLedger
-	usage map[string]int
+	name   string
+	failOn string // method whose first call fails ("" = none)
+	calls  map[string]int
+	usage  map[string]int
+}
+
+func (p *vLPlugin) fault(method string) bool {
+	if p.calls == nil {
+		p.calls = map[string]int{}
+	}
+	p.calls[method]++
+	return p.failOn == method && p.calls[method] == 1
 }
 
 func (p *vLPlugin) Name() string { return p.name }
@@ -46,7 +44,7 @@ func vAmt(r resourcetypes.RawParams) int {
 }
 
 func (p *vLPlugin) CalculateDeploy(_ context.Context, _ string, count int, req plugintypes.WorkloadResourceRequest) (*plugintypes.CalculateDeployResponse, error) {
-	if p.l.fault(p.name + ".CalculateDeploy") {
+	if p.fault("CalculateDeploy") {
 		return nil, vErrPlugin
 	}
 	resp := &plugintypes.CalculateDeployResponse{}
@@ -58,7 +56,7 @@ func (p *vLPlugin) CalculateDeploy(_ context.Context, _ string, count int, req p
 }
 
 func (p *vLPlugin) CalculateRealloc(_ context.Context, _ string, origin plugintypes.WorkloadResource, req plugintypes.WorkloadResourceRequest) (*plugintypes.CalculateReallocResponse, error) {
-	if p.l.fault(p.name + ".CalculateRealloc") {
+	if p.fault("CalculateRealloc") {
 		return nil, vErrPlugin
 	}
 	n := vAmt(origin) + vAmt(req)
@@ -70,7 +68,7 @@ func (p *vLPlugin) CalculateRealloc(_ context.Context, _ string, origin pluginty
 }
 
 func (p *vLPlugin) SetNodeResourceUsage(_ context.Context, node string, res plugintypes.NodeResource, _ plugintypes.NodeResourceRequest, ws []plugintypes.WorkloadResource, delta bool, incr bool) (*plugintypes.SetNodeResourceUsageResponse, error) {
-	if p.l.fault(p.name + ".SetNodeResourceUsage") {
+	if p.fault("SetNodeResourceUsage") {
 		return nil, vErrPlugin
 	}
 	before := p.usage[node]
@@ -93,18 +91,24 @@ func (p *vLPlugin) SetNodeResourceUsage(_ context.Context, node string, res plug
 	return &plugintypes.SetNodeResourceUsageResponse{Before: resourcetypes.RawParams{"amount": before}, After: resourcetypes.RawParams{"amount": p.usage[node]}}, nil
 }
 
-// VerifManagerLedger. arg: op=<0 alloc+rollback | 1 realloc+rollback | 2 release>,fault=<max fault position>
+// VerifManagerLedger. arg: op=<0 alloc+rollback | 1 realloc+rollback | 2 release>
 func VerifManagerLedger(arg string) {
 	op := vParam(arg, "op", 0)
-	maxFault := vParam(arg, "fault", 6)
-	l := &vLedger{}
-	p1 := &vLPlugin{name: "pa", l: l, usage: map[string]int{"n": vInt("usage_pa", 0, 1<<30)}}
-	p2 := &vLPlugin{name: "pb", l: l, usage: map[string]int{"n": vInt("usage_pb", 0, 1<<30)}}
+	p1 := &vLPlugin{name: "pa", usage: map[string]int{"n": vInt("usage_pa", 0, 1<<30)}}
+	p2 := &vLPlugin{name: "pb", usage: map[string]int{"n": vInt("usage_pb", 0, 1<<30)}}
 	m := Manager{plugins: []plugins.Plugin{p1, p2}}
 	u1, u2 := p1.usage["n"], p2.usage["n"]
 	a1, a2 := vInt("amount_pa", 0, 1<<20), vInt("amount_pb", 0, 1<<20)
 	opts := resourcetypes.Resources{"pa": {"amount": a1}, "pb": {"amount": a2}}
-	l.faultAt = vChoose("fault_at", maxFault+1)
+	// which plugin call fails: none, or the first Calculate* / SetNodeResourceUsage call of pa or pb
+	methods := []string{"", "CalculateDeploy", "CalculateRealloc", "SetNodeResourceUsage"}
+	switch vChoose("failing_plugin", 3) {
+	case 1:
+		p1.failOn = methods[vChoose("failing_method", 4)]
+	case 2:
+		p2.failOn = methods[vChoose("failing_method", 4)]
+	}
+	noMoreFaults := func() { p1.failOn, p2.failOn = "", "" }
 	ctx := context.Background()
 	switch op {
 	case 0:
@@ -123,11 +127,16 @@ func VerifManagerLedger(arg string) {
 		}
 		vAssert("C08/alloc-usage-exact", vAnd(p1.usage["n"] == u1+k*a1, p2.usage["n"] == u2+k*a2))
 		// no further faults: the rollback is the operation under test now
-		l.faultAt = 0
+		noMoreFaults()
 		vAssert("C08/rollback-alloc-succeeds", m.RollbackAlloc(ctx, "n", ws) == nil)
 		vAssert("C08/rollback-alloc-restores-usage", vAnd(p1.usage["n"] == u1, p2.usage["n"] == u2))
 	case 1:
 		origin := resourcetypes.Resources{"pa": {"amount": vInt("origin_pa", 0, 1<<20)}, "pb": {"amount": vInt("origin_pb", 0, 1<<20)}}
+		if vBool("realloc_names_only_pa") {
+			// a request that names a subset of the plugins leaves the others' share as it is
+			delete(opts, "pb")
+			a2 = 0
+		}
 		_, delta, now, err := m.Realloc(ctx, "n", origin, opts)
 		vCover("realloc-ok", err == nil)
 		vCover("realloc-failed", err != nil)
@@ -137,7 +146,7 @@ func VerifManagerLedger(arg string) {
 		}
 		vAssert("C08/realloc-usage-exact", vAnd(p1.usage["n"] == u1+a1, p2.usage["n"] == u2+a2))
 		vAssert("C08/realloc-resource-is-origin-plus-delta", vAnd(vAmt(now["pa"]) == vAmt(origin["pa"])+a1, vAmt(now["pb"]) == vAmt(origin["pb"])+a2))
-		l.faultAt = 0
+		noMoreFaults()
 		vAssert("C08/rollback-realloc-succeeds", m.RollbackRealloc(ctx, "n", delta) == nil)
 		vAssert("C08/rollback-realloc-restores-usage", vAnd(p1.usage["n"] == u1, p2.usage["n"] == u2))
 	case 2:
